@@ -591,3 +591,105 @@ Definition lin_check (reqauth : bool) (h : list hop) : option (list nat) :=
   | Some o => if valid_order reqauth h o then Some o else None
   | None => None
   end.
+
+(* ================= exhaustive exploration of small configurations ================= *)
+
+(* ---- identity of a state, for de-duplication during the exploration ---- *)
+Definition SEP : N := 4294967296.
+Definition key_of (s : state) : list N :=
+  nextp s :: flat_map (fun fp => fst fp :: snd fp :: nil) (map_to_list (refs s)) ++
+  SEP :: flat_map (fun pv => fst pv :: enc_sfid (snd pv)) (map_to_list (heap s)) ++
+  SEP :: flat_map (fun pi => fst pi :: N.of_nat (snd pi) :: nil) (map_to_list (owner s)) ++
+  flat_map (fun th => SEP :: (if t_incall th then 1 else 0) :: t_log th) (threads s).
+
+
+(* a state of the exploration: the model state plus what real time has fixed so far - the order in which
+   operations returned (latest first) and, for each operation that has taken its first step, how many had
+   returned by then.  Operation a precedes b in real time iff a is among the first [n_b] returned. *)
+Record xst := { x_state : state; x_rets : list nat; x_invs : list (nat * N) }.
+
+Fixpoint ins_inv (x : nat * N) (l : list (nat * N)) : list (nat * N) :=
+  match l with
+  | nil => x :: nil
+  | y :: r => if Nat.leb (fst x) (fst y) then x :: l else y :: ins_inv x r
+  end.
+
+Definition xkey (x : xst) : list N :=
+  key_of (x_state x) ++ SEP :: map N.of_nat (x_rets x) ++
+  SEP :: flat_map (fun p => N.of_nat (fst p) :: snd p :: nil) (x_invs x).
+
+Definition xstep (x : xst) (i : nat) : option xst :=
+  match step (x_state x) i with
+  | None => None
+  | Some s' =>
+      let invs := if existsb (fun p => Nat.eqb (fst p) i) (x_invs x) then x_invs x
+                  else ins_inv (i, N.of_nat (length (x_rets x))) (x_invs x) in
+      let rets := match threads s' !! i with
+                  | Some th => if is_done th then i :: x_rets x else x_rets x
+                  | None => x_rets x
+                  end in
+      Some {| x_state := s'; x_rets := rets; x_invs := invs |}
+  end.
+
+Fixpoint index_of (i : nat) (l : list nat) : N :=
+  match l with nil => 0 | j :: r => if Nat.eqb i j then 0 else 1 + index_of i r end.
+
+(* the history of a terminal exploration state; times: returns at 2*rank+1, invocations at 2*(number returned) *)
+Definition xhistory (ops : list (op * list outcome)) (x : xst) : option (list hop) :=
+  let order := rev (x_rets x) in
+  let hs := imap (fun i os =>
+    match threads (x_state x) !! i with
+    | Some th =>
+        match result_of th, filter (fun p => Nat.eqb (fst p) i) (x_invs x) with
+        | Some r, p :: _ =>
+            Some {| h_op := fst os; h_script := snd os; h_id := t_id th; h_inv := 2 * snd p;
+                    h_ret := 2 * index_of i order + 1; h_res := r; h_calls := rev (t_calls th) |}
+        | _, _ => None
+        end
+    | None => None
+    end) ops in
+  if forallb (fun o => match o with Some _ => true | None => false end) hs then Some (omap id hs) else None.
+
+(* terminal state: every operation returned and the history is linearizable *)
+Definition xterminal_ok (reqauth : bool) (ops : list (op * list outcome)) (x : xst) : bool :=
+  match xhistory ops x with
+  | Some h => match lin_check reqauth h with Some _ => true | None => false end
+  | None => false                       (* somebody never returned: deadlock *)
+  end.
+
+Definition xlevel (reqauth : bool) (ops : list (op * list outcome)) (n : nat)
+    (acc : gmap (list N) xst * bool * N) (x : xst) : gmap (list N) xst * bool * N :=
+  let '(m, ok, cnt) := acc in
+  match omap (xstep x) (seq 0 n) with
+  | nil => (m, ok && xterminal_ok reqauth ops x, cnt + 1)
+  | ss => (fold_right (fun y m => <[xkey y := y]> m) m ss, ok, cnt)
+  end.
+
+(* all interleavings of the operations, every FileSys call returning at every possible moment;
+   answer: (every terminal state is a linearizable completed history, number of terminal states) *)
+Fixpoint xexplore (fuel : nat) (reqauth : bool) (ops : list (op * list outcome))
+    (frontier : list xst) (ok : bool) (cnt : N) : bool * N :=
+  match fuel with
+  | O => (false, cnt)
+  | S fuel =>
+      match frontier with
+      | nil => (ok, cnt)
+      | _ =>
+          let '(m, ok', cnt') := fold_left (xlevel reqauth ops (length ops)) frontier (∅, ok, cnt) in
+          xexplore fuel reqauth ops (map snd (map_to_list m)) ok' cnt'
+      end
+  end.
+
+(* run operation i alone to its return, keeping the real-time book *)
+Fixpoint xrun_alone (fuel : nat) (x : xst) (i : nat) : xst :=
+  match fuel with
+  | O => x
+  | S fuel => match xstep x i with Some x' => xrun_alone fuel x' i | None => x end
+  end.
+
+(* the first [k] operations run one after the other (they populate the session); then ALL interleavings
+   of the remaining ones *)
+Definition all_interleavings_linearizable (reqauth : bool) (ops : list (op * list outcome)) (k : nat) : bool * N :=
+  let x0 := {| x_state := init reqauth ops; x_rets := nil; x_invs := nil |} in
+  let x1 := fold_left (xrun_alone seq_fuel) (seq 0 k) x0 in
+  xexplore 400 reqauth ops (x1 :: nil) true 0.
